@@ -18,7 +18,9 @@ EDGE_BITS = [2, 3, 8, 9, 16, 17, 32, 33, 48, 55, 63, 64, 65, 66, 72, 73, 96, 97,
 DATE_FORMATS = {'%y%m%d': 6, '%y%m%d%H%M%S': 12, '%Y%m%d': 8, '%Y%m%d%H%M%S': 14, '%y%m': 4, '%m%d%y': 6}
 PACKAGED_DE43 = (r"(?P<DE43_NAME>.+?) *\\(?P<DE43_ADDRESS>.+?) *\\(?P<DE43_SUBURB>.+?) *\\"
                  r"(?P<DE43_POSTCODE>.{10})(?P<DE43_STATE>.{3})(?P<DE43_COUNTRY>\S{3})$")
-DE43_POOL = [PACKAGED_DE43, r"(?P<DE43_HEAD>.{3})(?P<DE43_REST>.*)$", r"(?P<DE43_WORD>[A-Z]+)", None]
+# the configured expression is applied from the start of the field (re.match); it need not describe the whole field
+DE43_POOL = [PACKAGED_DE43, r"(?P<DE43_HEAD>.{3})(?P<DE43_REST>.*)$", r"(?P<DE43_WORD>[A-Z]+)", None,
+             r"(?P<DE43_NAME>[^\\]+?) *\\", r"(?P<DE43_LEAD>.{5})(?P<DE43_NEXT>.{3})", PACKAGED_DE43]
 
 KINDS = ['fixed_text', 'fixed_text', 'llvar_text', 'llvar_text', 'lllvar_text', 'lllvar_text', 'fixed_int', 'fixed_long',
          'llvar_int', 'fixed_decimal', 'fixed_datetime', 'pan', 'pan_prefix', 'pds', 'pds', 'icc', 'de43']
@@ -67,7 +69,10 @@ def field_config(kind, draw):
     if kind == 'fixed_decimal':
         return {'field_type': 'FIXED', 'field_length': draw(uniform(3, 20)), 'field_python_type': 'decimal'}
     if kind == 'fixed_datetime':
-        fmt = draw(st.sampled_from(sorted(DATE_FORMATS)))
+        fmt = draw(st.sampled_from(sorted(DATE_FORMATS) + ['default']))
+        if fmt == 'default':
+            # field_date_format is optional: "Default format is %y%m%d" (configuration documentation)
+            return {'field_type': 'FIXED', 'field_length': 6, 'field_python_type': 'datetime'}
         return {'field_type': 'FIXED', 'field_length': DATE_FORMATS[fmt], 'field_python_type': 'datetime',
                 'field_date_format': fmt}
     if kind in ('pan', 'pan_prefix'):
@@ -117,7 +122,16 @@ def configs(draw, max_bits=24, kinds=KINDS):
         cfg = {k: cfg[k] for k in reversed(list(cfg))}
     elif order == 'shuffled':
         cfg = {k: cfg[k] for k in draw(st.permutations(list(cfg)))}
+    if draw(st.booleans()):
+        cfg = from_json(cfg)
     return cfg
+
+
+def from_json(cfg):
+    """the same configuration as it arrives from a JSON file (--config-file, CARDUTIL_CONFIG, json.loads): equal values,
+    but every string is a fresh object rather than an interned source literal"""
+    import json
+    return json.loads(json.dumps(cfg))
 
 
 # ------------------------------------------------------------------------------------------------ values
@@ -265,6 +279,8 @@ def de43_text(draw, codec, maxlen):
                               st.text(alphabet='0123456789', min_size=1, max_size=9).map(lambda t: t.rjust(10)),
                               st.text(alphabet='012 AB', min_size=10, max_size=10)))
         text = f'{name}  \\{addr} \\{sub}\\{post}QLDAUS'
+        if '\n' in rep and len(text) < maxlen and draw(st.sampled_from([False] * 5 + [True])):
+            text += '\n'          # "$" in the packaged expression also matches before a final line feed
         if len(text) <= maxlen:
             return text
     n = draw(var_length(maxlen))
